@@ -513,7 +513,14 @@ struct Emitter {
                   K = "continue";
                 J.attribute("kind", K);
                 J.attribute("stmt", nodeOf(T));
-                J.attribute("cond", nodeOf(B->getTerminatorCondition()));
+                // the deciding leaf: for `if (a && b)` the last block's condition is
+                // `b`, which getLastCondition() returns (the terminator's own
+                // condition would be the whole `a && b`).
+                const Stmt *LC = B->getLastCondition();
+                int CondId = LC ? nodeOf(LC) : 0;
+                if (!CondId)
+                  CondId = nodeOf(B->getTerminatorCondition());
+                J.attribute("cond", CondId);
               });
             }
             if (const Stmt *L = B->getLabel()) {
